@@ -836,3 +836,827 @@ theorem KInv.step {s s' : State} {e : Ev} (hk : KInv s) (hs : step s e = .ok s')
   | getLocal t k =>
     obtain ⟨n, _, _, _, _, hp, rfl⟩ := getLocal_ok hs
     exact hk.frame rfl rfl rfl rfl hk.tP (fun _ => rfl) (fun _ _ hv => .inl hv)
+
+/-! ## `HInv`: handles, reference counts, threads, the library key's cells -/
+
+structure HInv (s : State) : Prop where
+  k0 : 0 < s.nK
+  hB : ∀ h, s.nH ≤ h → s.hdl h = {}
+  tT : ∀ t, s.nT ≤ t → ∀ n, s.tls t n = 0
+  /-- `refcount_is_holders` -/
+  hR : ∀ h, (s.hdl h).freed = false → (s.hdl h).refCount = holders (s.hdl h)
+  hL : ∀ h, (s.hdl h).written = true → (s.hdl h).freed = false → 0 < holders (s.hdl h)
+  hU : ∀ h, (s.hdl h).written = false →
+        (s.hdl h).freed = false ∧ (s.hdl h).userRefs = 0 ∧ (s.hdl h).threadRef = false ∧ (s.hdl h).refCount = 0 ∧
+        (s.hdl h).retCode = 0 ∧ (s.hdl h).ours = false
+  hS : ∀ h, h < s.nH → (s.hdl h).written = false → ∃ c, s.spin = some c ∧ c.h = h
+  sC : ∀ c, s.spin = some c → c.h < s.nH ∧ (s.hdl c.h).written = false ∧
+        (s.thr (s.hdl c.h).thread).handle = some c.h ∧ (s.thr (s.hdl c.h).thread).phase = .created
+  tH : ∀ t h, (s.thr t).handle = some h → h < s.nH ∧ (s.hdl h).thread = t
+  hO : ∀ h, (s.hdl h).ours = true → (s.thr (s.hdl h).thread).handle = some h
+  hW : ∀ t h, (s.thr t).handle = some h → (s.hdl h).written = true → (s.hdl h).ours = true
+  hJ : ∀ h, (s.hdl h).written = true → (s.hdl h).ours = false → (s.hdl h).joinable = false
+  tC : ∀ t, (s.thr t).phase = .created →
+        ∃ h, (s.thr t).handle = some h ∧ ((s.hdl h).written = true → (s.hdl h).threadRef = true)
+  tR : ∀ t h, (s.thr t).phase = .running → (s.thr t).handle = some h →
+        ∃ n, (s.key 0).published = some n ∧ s.tls t n = h + 1
+  lT : ∀ t n, (s.nkey n).owner = 0 → s.tls t n ≠ 0 →
+        (s.hdl (s.tls t n - 1)).written = true ∧ (s.hdl (s.tls t n - 1)).threadRef = true ∧
+        (s.hdl (s.tls t n - 1)).thread = t
+  jC : ∀ t h, (s.thr t).handle = some h →
+        (((s.thr t).phase = .created ∨ (s.thr t).phase = .running) → (s.hdl h).retCode = 0 ∧ (s.thr t).exitArg = none) ∧
+        (((s.thr t).phase = .finished ∨ (s.thr t).phase = .ended) → (s.hdl h).retCode = ((s.thr t).exitArg).getD 0)
+  fL : ∀ h, h ∈ s.freeLog ↔ (s.hdl h).freed = true
+  fN : s.freeLog.Nodup
+
+theorem HInv.init : HInv init := by
+  refine ⟨by simp [PV.UThread.init], ?_, ?_, ?_, ?_, ?_, ?_, ?_, ?_, ?_, ?_, ?_, ?_, ?_, ?_, ?_, ?_, ?_⟩
+  · intro h _; rfl
+  · intro t _ n; rfl
+  · intro h _; simp [PV.UThread.init, holders]
+  · intro h hw; simp [PV.UThread.init] at hw
+  · intro h _; simp [PV.UThread.init]
+  · intro h hh; simp [PV.UThread.init] at hh
+  · intro c hc; simp [PV.UThread.init] at hc
+  · intro t h hh; simp [PV.UThread.init] at hh; split at hh <;> cases hh
+  · intro h hh; simp [PV.UThread.init] at hh
+  · intro t h hh; simp [PV.UThread.init] at hh; split at hh <;> cases hh
+  · intro h hh; simp [PV.UThread.init] at hh
+  · intro t hh; simp [PV.UThread.init] at hh; split at hh <;> cases hh
+  · intro t h _ hh; simp [PV.UThread.init] at hh; split at hh <;> cases hh
+  · intro t n _ hh; simp [PV.UThread.init] at hh
+  · intro t h hh; simp [PV.UThread.init] at hh; split at hh <;> cases hh
+  · intro h; simp [PV.UThread.init]
+  · simp [PV.UThread.init]
+
+/-- the handle of a thread that has passed the creation spinlock has all its fields written -/
+theorem HInv.written_of_started {s : State} (hi : HInv s) {t h : Nat} (hh : (s.thr t).handle = some h)
+    (hp : (s.thr t).phase ≠ .created) : (s.hdl h).written = true := by
+  cases hw : (s.hdl h).written with
+  | true => rfl
+  | false =>
+    obtain ⟨c, hc, rfl⟩ := hi.hS h (hi.tH t h hh).1 hw
+    have := (hi.sC c hc).2.2.2
+    rw [(hi.tH t c.h hh).2] at this
+    exact absurd this hp
+
+/-- events that do not touch handles, thread phases, the spinlock or the library key's cells -/
+theorem HInv.frame {s s' : State} (hi : HInv s)
+    (e1 : s'.nH = s.nH) (e2 : s'.nT = s.nT) (e3 : s'.hdl = s.hdl) (e4 : s'.spin = s.spin) (e5 : s'.freeLog = s.freeLog)
+    (e6 : ∀ t, (s'.thr t).phase = (s.thr t).phase ∧ (s'.thr t).handle = (s.thr t).handle ∧ (s'.thr t).exitArg = (s.thr t).exitArg)
+    (e7 : s.nK ≤ s'.nK)
+    (e8 : ∀ t n, (s.key 0).published = some n → (s'.key 0).published = some n ∧ s'.tls t n = s.tls t n)
+    (e9 : ∀ t n, (s'.nkey n).owner = 0 → s'.tls t n ≠ 0 → (s.nkey n).owner = 0 ∧ s'.tls t n = s.tls t n)
+    (e10 : ∀ t, s.nT ≤ t → ∀ n, s'.tls t n = 0) : HInv s' := by
+  refine ⟨by have := hi.k0; omega, ?_, ?_, ?_, ?_, ?_, ?_, ?_, ?_, ?_, ?_, ?_, ?_, ?_, ?_, ?_, ?_, ?_⟩
+  · intro h hh; rw [e3]; exact hi.hB h (e1 ▸ hh)
+  · intro t ht; exact e10 t (e2 ▸ ht)
+  · rw [e3]; exact hi.hR
+  · rw [e3]; exact hi.hL
+  · rw [e3]; exact hi.hU
+  · rw [e1, e3, e4]; exact hi.hS
+  · intro c hc; rw [e4] at hc; rw [e1, e3, (e6 _).1, (e6 _).2.1]; exact hi.sC c hc
+  · intro t h hh; rw [(e6 t).2.1] at hh; rw [e1, e3]; exact hi.tH t h hh
+  · intro h hh; rw [e3] at hh ⊢; rw [(e6 _).2.1]; exact hi.hO h hh
+  · intro t h hh; rw [(e6 t).2.1] at hh; rw [e3]; exact hi.hW t h hh
+  · rw [e3]; exact hi.hJ
+  · intro t hp; rw [(e6 t).1] at hp; rw [(e6 t).2.1, e3]; exact hi.tC t hp
+  · intro t h hp hh; rw [(e6 t).1] at hp; rw [(e6 t).2.1] at hh
+    obtain ⟨n, h1, h2⟩ := hi.tR t h hp hh
+    exact ⟨n, (e8 t n h1).1, by rw [(e8 t n h1).2]; exact h2⟩
+  · intro t n ho hv
+    obtain ⟨h1, h2⟩ := e9 t n ho hv
+    rw [h2] at hv ⊢; rw [e3]; exact hi.lT t n h1 hv
+  · intro t h hh; rw [(e6 t).2.1] at hh; rw [(e6 t).1, (e6 t).2.2, e3]; exact hi.jC t h hh
+  · intro h; rw [e5, e3]; exact hi.fL h
+  · rw [e5]; exact hi.fN
+
+/-- replacing the record of one fully created handle by one with the same identity fields and a
+    consistent count (`ref`, `unref`, `join`) -/
+theorem HInv.updHandle {s : State} (hi : HInv s) {h0 : Nat} {x' : Handle} {fl : List Nat}
+    (hw : (s.hdl h0).written = true) (e_w : x'.written = true) (e_t : x'.thread = (s.hdl h0).thread)
+    (e_o : x'.ours = (s.hdl h0).ours) (e_j : x'.joinable = (s.hdl h0).joinable) (e_r : x'.retCode = (s.hdl h0).retCode)
+    (e_tr : x'.threadRef = (s.hdl h0).threadRef ∨
+      ((∀ t', (s.thr t').handle = some h0 → (s.thr t').phase ≠ .created) ∧
+       (∀ t' n', (s.nkey n').owner = 0 → s.tls t' n' ≠ 0 → s.tls t' n' - 1 ≠ h0)))
+    (hR' : x'.freed = false → x'.refCount = holders x') (hL' : x'.freed = false → 0 < holders x')
+    (hfl : (x'.freed = (s.hdl h0).freed ∧ fl = s.freeLog) ∨ ((s.hdl h0).freed = false ∧ x'.freed = true ∧ fl = s.freeLog ++ [h0])) :
+    HInv { s with hdl := upd s.hdl h0 x', freeLog := fl } := by
+  have hlt : h0 < s.nH := by
+    apply Classical.byContradiction; intro hn
+    rw [hi.hB h0 (by omega)] at hw; cases hw
+  refine ⟨hi.k0, ?_, hi.tT, ?_, ?_, ?_, ?_, ?_, ?_, ?_, ?_, ?_, ?_, hi.tR, ?_, ?_, ?_, ?_⟩
+  · intro h hh; simp only at hh ⊢; rw [upd_ne _ _ (by omega)]; exact hi.hB h hh
+  · intro h; simp only
+    by_cases e : h = h0
+    · subst e; simpa using hR'
+    · rw [upd_ne _ _ e]; exact hi.hR h
+  · intro h; simp only
+    by_cases e : h = h0
+    · subst e; simpa using fun _ => hL'
+    · rw [upd_ne _ _ e]; exact hi.hL h
+  · intro h; simp only
+    by_cases e : h = h0
+    · subst e; simp [e_w]
+    · rw [upd_ne _ _ e]; exact hi.hU h
+  · intro h hh; simp only at hh ⊢
+    by_cases e : h = h0
+    · subst e; simp [e_w]
+    · rw [upd_ne _ _ e]; exact hi.hS h hh
+  · intro c hc; simp only at hc ⊢
+    have := hi.sC c hc
+    have e : c.h ≠ h0 := by intro e; rw [e, hw] at this; cases this.2.1
+    rw [upd_ne _ _ e]; exact this
+  · intro t h hh; simp only at hh ⊢
+    by_cases e : h = h0
+    · subst e; simp [e_t]; exact hi.tH t h hh
+    · rw [upd_ne _ _ e]; exact hi.tH t h hh
+  · intro h; simp only
+    by_cases e : h = h0
+    · subst e; simp [e_t, e_o]; exact hi.hO h
+    · rw [upd_ne _ _ e]; exact hi.hO h
+  · intro t h hh; simp only at hh ⊢
+    by_cases e : h = h0
+    · subst e; simp [e_o]; exact fun _ => hi.hW t h hh hw
+    · rw [upd_ne _ _ e]; exact hi.hW t h hh
+  · intro h; simp only
+    by_cases e : h = h0
+    · subst e; simp [e_o, e_j]; exact fun _ => hi.hJ h hw
+    · rw [upd_ne _ _ e]; exact hi.hJ h
+  · intro t hp; simp only at hp ⊢
+    obtain ⟨h, h1, h2⟩ := hi.tC t hp
+    refine ⟨h, h1, ?_⟩
+    by_cases e : h = h0
+    · subst e
+      rcases e_tr with e_tr | ⟨e_tr, _⟩
+      · simp [e_tr]; exact fun _ => h2 hw
+      · exact absurd hp (e_tr t h1)
+    · rw [upd_ne _ _ e]; exact h2
+  · intro t n ho hv; simp only at ho hv ⊢
+    have := hi.lT t n ho hv
+    by_cases e : s.tls t n - 1 = h0
+    · rcases e_tr with e_tr | ⟨_, e_tr⟩
+      · rw [e] at this ⊢; simp [e_w, e_tr, e_t]; exact ⟨this.2.1, this.2.2⟩
+      · exact absurd e (e_tr t n ho hv)
+    · rw [upd_ne _ _ e]; exact this
+  · intro t h hh; simp only at hh ⊢
+    by_cases e : h = h0
+    · subst e; simp [e_r]; exact hi.jC t h hh
+    · rw [upd_ne _ _ e]; exact hi.jC t h hh
+  · intro h; simp only
+    rcases hfl with ⟨f1, rfl⟩ | ⟨f1, f2, rfl⟩
+    · by_cases e : h = h0
+      · subst e; simp [f1]; exact hi.fL h
+      · rw [upd_ne _ _ e]; exact hi.fL h
+    · by_cases e : h = h0
+      · subst e; simp [f2]
+      · rw [upd_ne _ _ e]; simp [e]; exact hi.fL h
+  · simp only
+    rcases hfl with ⟨_, rfl⟩ | ⟨f1, _, rfl⟩
+    · exact hi.fN
+    · refine List.nodup_append.mpr ⟨hi.fN, by simp, ?_⟩
+      intro a ha b hb; simp at hb; subst hb; intro e; subst e
+      have := (hi.fL a).mp ha; rw [f1] at this; cases this
+
+theorem HInv.ref_inv {s s' : State} {a h : Nat} (hi : HInv s) (hs : ref s a h = .ok s') : HInv s' := by
+  obtain ⟨_, _, hw, hf, rfl⟩ := ref_ok hs
+  have := hi.hR h hf
+  refine hi.updHandle (fl := s.freeLog) hw hw rfl rfl rfl rfl (.inl rfl) ?_ ?_ (.inl ⟨rfl, rfl⟩)
+  · intro _; simp only [holders, refIncrement] at this ⊢; split at this <;> simp_all <;> omega
+  · intro _; simp only [holders]; omega
+
+theorem HInv.unrefCore_user {s s' : State} {h : Nat} (hi : HInv s) (hw : (s.hdl h).written = true)
+    (hs : unrefCore s h false = .ok s') : HInv s' := by
+  obtain ⟨hf, ⟨hc, rfl⟩ | ⟨hc, rfl⟩⟩ := unrefCore_ok hs
+  · exact hi.updHandle hw (by simp [decd, hw]) rfl rfl rfl rfl (.inl (by simp [decd])) (by simp) (by simp) (.inr ⟨hf, rfl, rfl⟩)
+  · have h1 := hi.hR h hf
+    have h2 := hi.hL h hw hf
+    refine hi.updHandle (fl := s.freeLog) hw (by simp [decd, hw]) rfl rfl rfl rfl (.inl (by simp [decd])) ?_ ?_ (.inl ⟨by simp [decd, hf], rfl⟩)
+    · intro _
+      simp only [holders, decd, unrefDecrement, unrefFreesWhenOldIs] at h1 h2 hc ⊢
+      by_cases htr : (s.hdl h).threadRef = true <;> simp [htr] at h1 h2 ⊢ <;> omega
+    · intro _
+      simp only [holders, decd, unrefDecrement, unrefFreesWhenOldIs] at h1 h2 hc ⊢
+      by_cases htr : (s.hdl h).threadRef = true <;> simp [htr] at h1 h2 ⊢ <;> omega
+
+theorem HInv.join_inv {s s' : State} {a h : Nat} (hi : HInv s) (hs : join s a h = .ok s') : HInv s' := by
+  obtain ⟨_, _, hw, hf, ⟨_, rfl⟩ | ⟨_, _, _, rfl⟩⟩ := join_ok hs
+  · exact hi.frame rfl rfl rfl rfl rfl (fun _ => ⟨rfl, rfl, rfl⟩) (Nat.le_refl _) (fun _ _ hp => ⟨hp, rfl⟩)
+      (fun _ _ ho _ => ⟨ho, rfl⟩) hi.tT
+  · have := hi.updHandle (x' := { s.hdl h with joined := true }) (fl := s.freeLog) hw hw rfl rfl rfl rfl (.inl rfl)
+      (fun hf' => hi.hR h hf') (fun hf' => hi.hL h hw hf') (.inl ⟨rfl, rfl⟩)
+    exact this.frame rfl rfl rfl rfl rfl (fun _ => ⟨rfl, rfl, rfl⟩) (Nat.le_refl _) (fun _ _ hp => ⟨hp, rfl⟩)
+      (fun _ _ ho _ => ⟨ho, rfl⟩) this.tT
+
+theorem thr_upd_pend (s : State) (t : Nat) (p : Option (Nat × Nat)) (t' : Nat) :
+    (upd s.thr t { s.thr t with pend := p } t').phase = (s.thr t').phase ∧
+    (upd s.thr t { s.thr t with pend := p } t').handle = (s.thr t').handle ∧
+    (upd s.thr t { s.thr t with pend := p } t').exitArg = (s.thr t').exitArg := by
+  by_cases e : t' = t
+  · subst e; simp
+  · rw [upd_ne _ _ e]; exact ⟨rfl, rfl, rfl⟩
+
+theorem HInv.localNew_inv {s s' : State} {a : Nat} {nf : Bool} (hi : HInv s) (hs : localNew s a nf = .ok s') : HInv s' := by
+  obtain ⟨_, rfl⟩ := localNew_ok hs
+  have := hi.k0
+  refine hi.frame rfl rfl rfl rfl rfl (fun _ => ⟨rfl, rfl, rfl⟩) (by simp) ?_ (fun _ _ ho _ => ⟨ho, rfl⟩) hi.tT
+  intro t n hp; refine ⟨?_, rfl⟩; simp only; rw [upd_ne _ _ (by omega)]; exact hp
+
+theorem HInv.localFree_inv {s s' : State} {a k : Nat} (hi : HInv s) (hs : localFree s a k = .ok s') : HInv s' := by
+  obtain ⟨_, hk, _, _, rfl⟩ := localFree_ok hs
+  refine hi.frame rfl rfl rfl rfl rfl (fun _ => ⟨rfl, rfl, rfl⟩) (Nat.le_refl _) ?_ (fun _ _ ho _ => ⟨ho, rfl⟩) hi.tT
+  intro t n hp; refine ⟨?_, rfl⟩; simp only; rw [upd_ne _ _ (Ne.symm hk)]; exact hp
+
+theorem HInv.keyCreate_inv {s s' : State} {t k : Nat} (hi : HInv s) (hk : KInv s) (hs : keyCreate s t k = .ok s') : HInv s' := by
+  obtain ⟨_, _, _, _, _, rfl⟩ := keyCreate_ok hs
+  refine hi.frame rfl rfl rfl rfl rfl (thr_upd_pend s t _) (Nat.le_refl _) (fun _ _ hp => ⟨hp, rfl⟩) ?_ hi.tT
+  intro t' n ho hv; simp only at ho hv
+  have := hk.val_lt hv
+  rw [upd_ne _ _ (by omega)] at ho; exact ⟨ho, rfl⟩
+
+theorem HInv.keyCas_inv {s s' : State} {t k : Nat} (hi : HInv s) (hs : keyCas s t k = .ok s') : HInv s' := by
+  obtain ⟨n, _, _, ⟨hpub, rfl⟩ | ⟨_, rfl⟩⟩ := keyCas_ok hs
+  · refine hi.frame rfl rfl rfl rfl rfl (thr_upd_pend s t _) (Nat.le_refl _) ?_ (fun _ _ ho _ => ⟨ho, rfl⟩) hi.tT
+    intro t' m hp; refine ⟨?_, rfl⟩; simp only
+    have : (0 : Nat) ≠ k := by intro e; subst e; rw [hpub] at hp; cases hp
+    rw [upd_ne _ _ this]; exact hp
+  · refine hi.frame rfl rfl rfl rfl rfl (thr_upd_pend s t _) (Nat.le_refl _) ?_ ?_ hi.tT
+    · intro t' m hp; refine ⟨?_, rfl⟩; simp only
+      by_cases e : 0 = k
+      · subst e; simp [hp]
+      · rw [upd_ne _ _ e]; exact hp
+    · intro t' m ho _; simp only at ho
+      by_cases e : m = n
+      · subst e; simp at ho; exact ⟨ho, rfl⟩
+      · rw [upd_ne _ _ e] at ho; exact ⟨ho, rfl⟩
+
+/-- a store into a cell of a user key -/
+theorem HInv.userTls {s : State} (hi : HInv s) (hk : KInv s) {t k n v : Nat} (hc : canAct s t) (hk0 : k ≠ 0)
+    (hp : (s.key k).published = some n) : HInv { s with tls := upd2 s.tls t n v } := by
+  have hown := (hk.kP k n hp).2.1
+  have hlt := hk.thr_lt (t := t) (by rw [hc.1]; simp)
+  refine hi.frame rfl rfl rfl rfl rfl (fun _ => ⟨rfl, rfl, rfl⟩) (Nat.le_refl _) ?_ ?_ ?_
+  · intro t' m hp0; simp only
+    have : m ≠ n := by intro e; subst e; have := (hk.kP 0 m hp0).2.1; rw [hown] at this; exact hk0 this
+    rw [upd2_ne _ _ (by simp [this])]; exact ⟨hp0, rfl⟩
+  · intro t' m ho _; simp only at ho ⊢
+    have : m ≠ n := by intro e; subst e; rw [hown] at ho; exact hk0 ho
+    rw [upd2_ne _ _ (by simp [this])]; exact ⟨ho, rfl⟩
+  · intro t' ht' m; simp only
+    rw [upd2_ne _ _ (by intro e; omega)]; exact hi.tT t' ht' m
+
+theorem HInv.logs {s : State} (hi : HInv s) (d : List (Nat × Nat × Nat)) (j : List (Nat × Nat × Int)) (g : List (Nat × Nat × Nat))
+    (c : List (Nat × Nat)) : HInv { s with dtorLog := d, joinLog := j, getLog := g, curLog := c } :=
+  hi.frame rfl rfl rfl rfl rfl (fun _ => ⟨rfl, rfl, rfl⟩) (Nat.le_refl _) (fun _ _ hp => ⟨hp, rfl⟩) (fun _ _ ho _ => ⟨ho, rfl⟩) hi.tT
+
+/-- the native layer NULLs a cell of a thread that is no longer running its function -/
+theorem HInv.clearCell {s : State} (hi : HInv s) {t n : Nat} (hp : (s.thr t).phase ≠ .running) : HInv (cleared s t n) := by
+  have e : ∀ t' n', (cleared s t n).tls t' n' ≠ 0 → (cleared s t n).tls t' n' = s.tls t' n' := by
+    intro t' n' hv; simp only [cleared] at hv ⊢
+    by_cases c : t' = t ∧ n' = n
+    · obtain ⟨rfl, rfl⟩ := c; simp at hv
+    · rw [upd2_ne _ _ c]
+  refine ⟨hi.k0, hi.hB, ?_, hi.hR, hi.hL, hi.hU, hi.hS, hi.sC, hi.tH, hi.hO, hi.hW, hi.hJ, hi.tC, ?_, ?_, hi.jC, hi.fL, hi.fN⟩
+  · intro t' ht' n'
+    apply Classical.byContradiction; intro hv
+    exact hv ((e t' n' hv).trans (hi.tT t' ht' n'))
+  · intro t' h hp' hh
+    obtain ⟨m, h1, h2⟩ := hi.tR t' h hp' hh
+    refine ⟨m, h1, ?_⟩
+    have : t' ≠ t := by intro c; subst c; exact hp hp'
+    simp only [cleared]; rw [upd2_ne _ _ (by simp [this])]; exact h2
+  · intro t' n' ho hv
+    have := e t' n' hv
+    rw [this] at hv ⊢; exact hi.lT t' n' ho hv
+
+/-- `pp_uthread_cleanup`: the library key's destructor gives up the thread's own reference -/
+theorem HInv.libDtor {s s' : State} (hi : HInv s) (hk : KInv s) {t n : Nat} (hp : (s.thr t).phase = .finished)
+    (ho : (s.nkey n).owner = 0) (hv : s.tls t n ≠ 0)
+    (hs : unrefCore (cleared s t n) (s.tls t n - 1) true = .ok s') : HInv s' := by
+  obtain ⟨hw, htr, hth⟩ := hi.lT t n ho hv
+  have hc := hi.clearCell (t := t) (n := n) (by rw [hp]; simp)
+  -- no created thread and no library cell refers to the handle any more
+  have hno : (∀ t', ((cleared s t n).thr t').handle = some (s.tls t n - 1) → ((cleared s t n).thr t').phase ≠ .created) ∧
+      (∀ t' n', ((cleared s t n).nkey n').owner = 0 → (cleared s t n).tls t' n' ≠ 0 → (cleared s t n).tls t' n' - 1 ≠ s.tls t n - 1) := by
+    constructor
+    · intro t' hh
+      have := (hi.tH t' _ hh).2
+      rw [hth] at this; subst this
+      simp only [cleared]; rw [hp]; simp
+    · intro t' n' ho' hv' e
+      simp only [cleared] at ho' hv' e
+      by_cases c : t' = t ∧ n' = n
+      · obtain ⟨rfl, rfl⟩ := c; simp at hv'
+      · rw [upd2_ne _ _ c] at hv' e
+        have h1 := (hi.lT t' n' ho' hv').2.2
+        rw [e, hth] at h1; subst h1
+        have p1 := hk.kV t n hv; have p2 := hk.kV t n' hv'
+        rw [ho] at p1; rw [ho'] at p2; rw [p1] at p2; injection p2 with p2
+        exact c ⟨rfl, p2.symm⟩
+  obtain ⟨hf, ⟨hcnt, rfl⟩ | ⟨hcnt, rfl⟩⟩ := unrefCore_ok hs
+  · exact hc.updHandle (h0 := s.tls t n - 1) hw (by simp [decd, cleared, hw]) rfl rfl rfl rfl (.inr hno) (by simp) (by simp)
+      (.inr ⟨hf, rfl, rfl⟩)
+  · have h1 := hi.hR _ hf
+    refine hc.updHandle (h0 := s.tls t n - 1) (fl := s.freeLog) hw (by simp [decd, cleared, hw]) rfl rfl rfl rfl (.inr hno) ?_ ?_
+      (.inl ⟨by simp [decd, cleared] at hf ⊢, rfl⟩)
+    · intro _
+      simp only [cleared] at hcnt hf
+      simp only [holders, decd, cleared, unrefDecrement, unrefFreesWhenOldIs, htr] at h1 hcnt ⊢
+      simp at h1 ⊢; omega
+    · intro _
+      simp only [cleared] at hcnt hf
+      simp only [holders, decd, cleared, unrefDecrement, unrefFreesWhenOldIs, htr] at h1 hcnt ⊢
+      simp at h1 ⊢; omega
+
+theorem HInv.dtorOne_inv {s s' : State} {t n : Nat} (hi : HInv s) (hk : KInv s) (hp : (s.thr t).phase = .finished)
+    (hs : dtorOne t s n = .ok s') : HInv s' := by
+  rcases dtorOne_ok hs with ⟨_, rfl⟩ | ⟨_, _, rfl⟩ | ⟨hd, ho, hu⟩
+  · exact hi
+  · exact hi.clearCell (by rw [hp]; simp)
+  · exact hi.libDtor hk hp ho hd.2.2 hu
+
+theorem HInv.runDtors_inv {t : Nat} : ∀ {l : List Nat} {s s' : State}, HInv s → KInv s → (s.thr t).phase = .finished →
+    runDtors t s l = .ok s' → HInv s'
+  | [], s, s', hi, _, _, hs => by unfold PV.UThread.runDtors at hs; injection hs with hs; exact hs ▸ hi
+  | n :: r, s, s', hi, hk, hp, hs => by
+    obtain ⟨s1, h1, h2⟩ := runDtors_cons_ok hs
+    exact HInv.runDtors_inv (hi.dtorOne_inv hk hp h1) (hk.dtorOne h1) (by rw [(dtorOne_thr h1).1]; exact hp) h2
+
+/-- a thread that has left `created` moves on to `finished` / `ended` (its handle link stays) -/
+theorem HInv.updThread {s : State} (hi : HInv s) {t : Nat} {x : Thread}
+    (hx_h : x.handle = (s.thr t).handle) (hx1 : x.phase ≠ .created) (hx2 : x.phase ≠ .running)
+    (hold : (s.thr t).phase ≠ .created)
+    (hj : ∀ h, (s.thr t).handle = some h → (x.phase = .finished ∨ x.phase = .ended) → (s.hdl h).retCode = x.exitArg.getD 0) :
+    HInv { s with thr := upd s.thr t x } := by
+  have eh : ∀ t', (upd s.thr t x t').handle = (s.thr t').handle := by
+    intro t'; by_cases e : t' = t
+    · subst e; simp [hx_h]
+    · rw [upd_ne _ _ e]
+  refine ⟨hi.k0, hi.hB, hi.tT, hi.hR, hi.hL, hi.hU, hi.hS, ?_, ?_, ?_, ?_, hi.hJ, ?_, ?_, hi.lT, ?_, hi.fL, hi.fN⟩
+  · intro c hc; simp only at hc ⊢
+    have := hi.sC c hc
+    have e : (s.hdl c.h).thread ≠ t := by intro e; rw [e] at this; exact hold this.2.2.2
+    rw [upd_ne _ _ e]; exact this
+  · intro t' h hh; simp only at hh ⊢; rw [eh] at hh; exact hi.tH t' h hh
+  · intro h hh; simp only at hh ⊢; rw [eh]; exact hi.hO h hh
+  · intro t' h hh; simp only at hh ⊢; rw [eh] at hh; exact hi.hW t' h hh
+  · intro t' hp; simp only at hp ⊢
+    have e : t' ≠ t := by intro e; subst e; simp at hp; exact hx1 hp
+    rw [upd_ne _ _ e] at hp ⊢; exact hi.tC t' hp
+  · intro t' h hp hh; simp only at hp hh ⊢
+    have e : t' ≠ t := by intro e; subst e; simp at hp; exact hx2 hp
+    rw [upd_ne _ _ e] at hp hh; exact hi.tR t' h hp hh
+  · intro t' h hh; simp only at hh ⊢
+    by_cases e : t' = t
+    · subst e; simp at hh ⊢
+      rw [hx_h] at hh
+      refine ⟨fun hp => ?_, hj h hh⟩
+      rcases hp with hp | hp
+      · exact absurd hp hx1
+      · exact absurd hp hx2
+    · rw [upd_ne _ _ e] at hh ⊢; exact hi.jC t' h hh
+
+theorem HInv.ret_inv {s s' : State} {t : Nat} (hi : HInv s) (hs : ret s t = .ok s') : HInv s' := by
+  obtain ⟨hc, _, rfl⟩ := ret_ok hs
+  refine hi.updThread rfl (by simp) (by simp) (by rw [hc.1]; simp) ?_
+  intro h hh _
+  have := ((hi.jC t h hh).1 (.inr hc.1))
+  simp [this.1, this.2]
+
+theorem HInv.threadEnd_inv {s s' : State} {t : Nat} (hi : HInv s) (hk : KInv s) (hs : threadEnd s t = .ok s') : HInv s' := by
+  obtain ⟨hp, s1, hr, rfl⟩ := threadEnd_ok hs
+  have h1 := hi.runDtors_inv hk hp hr
+  have ht := (runDtors_thr hr).1
+  refine h1.updThread rfl (by simp) (by simp) (by rw [ht, hp]; simp) ?_
+  intro h hh _
+  have := (h1.jC t h hh).2 (.inl (by rw [ht]; exact hp))
+  simpa using this
+
+theorem HInv.spawn_inv {s s' : State} (hi : HInv s) (hk : KInv s) (hs : spawn s = .ok s') : HInv s' := by
+  have := spawn_ok hs; subst this
+  have hnew := hk.tP s.nT (Nat.le_refl _)
+  have ne_of_handle : ∀ t h, (s.thr t).handle = some h → t ≠ s.nT := by
+    intro t h hh e; subst e; rw [hnew] at hh; cases hh
+  have ne_of_phase : ∀ t, (s.thr t).phase ≠ .absent → t ≠ s.nT := by
+    intro t hp e; subst e; rw [hnew] at hp; exact hp rfl
+  refine ⟨hi.k0, hi.hB, ?_, hi.hR, hi.hL, hi.hU, hi.hS, ?_, ?_, ?_, ?_, hi.hJ, ?_, ?_, hi.lT, ?_, hi.fL, hi.fN⟩
+  · intro t ht; simp only at ht ⊢; exact hi.tT t (by omega)
+  · intro c hc; simp only at hc ⊢
+    have := hi.sC c hc
+    rw [upd_ne _ _ (ne_of_handle _ _ this.2.2.1)]; exact this
+  · intro t h hh; simp only at hh ⊢
+    by_cases e : t = s.nT
+    · subst e; simp at hh
+    · rw [upd_ne _ _ e] at hh; exact hi.tH t h hh
+  · intro h hh; simp only at hh ⊢
+    have := hi.hO h hh
+    rw [upd_ne _ _ (ne_of_handle _ _ this)]; exact this
+  · intro t h hh; simp only at hh ⊢
+    by_cases e : t = s.nT
+    · subst e; simp at hh
+    · rw [upd_ne _ _ e] at hh; exact hi.hW t h hh
+  · intro t hp; simp only at hp ⊢
+    by_cases e : t = s.nT
+    · subst e; simp at hp
+    · rw [upd_ne _ _ e] at hp ⊢; exact hi.tC t hp
+  · intro t h hp hh; simp only at hp hh ⊢
+    by_cases e : t = s.nT
+    · subst e; simp at hh
+    · rw [upd_ne _ _ e] at hp hh; exact hi.tR t h hp hh
+  · intro t h hh; simp only at hh ⊢
+    by_cases e : t = s.nT
+    · subst e; simp at hh
+    · rw [upd_ne _ _ e] at hh ⊢; exact hi.jC t h hh
+
+theorem HInv.lt_of_written {s : State} (hi : HInv s) {h : Nat} (hw : (s.hdl h).written = true) : h < s.nH := by
+  apply Classical.byContradiction; intro hn
+  rw [hi.hB h (by omega)] at hw; cases hw
+
+theorem HInv.createBegin_inv {s s' : State} {a : Nat} {j n : Bool} (hi : HInv s) (hk : KInv s)
+    (hs : createBegin s a j n = .ok s') : HInv s' := by
+  obtain ⟨_, hspin, rfl⟩ := createBegin_ok hs
+  have hnew := hk.tP s.nT (Nat.le_refl _)
+  have hnewH := hi.hB s.nH (Nat.le_refl _)
+  have ne_of_handle : ∀ t h, (s.thr t).handle = some h → t ≠ s.nT := by
+    intro t h hh e; subst e; rw [hnew] at hh; cases hh
+  have all_written : ∀ h, h < s.nH → (s.hdl h).written = true := by
+    intro h hh
+    cases hw : (s.hdl h).written with
+    | true => rfl
+    | false => obtain ⟨c, hc, _⟩ := hi.hS h hh hw; rw [hspin] at hc; cases hc
+  refine ⟨hi.k0, ?_, ?_, ?_, ?_, ?_, ?_, ?_, ?_, ?_, ?_, ?_, ?_, ?_, ?_, ?_, ?_, hi.fN⟩
+  · intro h hh; simp only at hh ⊢; rw [upd_ne _ _ (by omega)]; exact hi.hB h (by omega)
+  · intro t ht; simp only at ht ⊢; exact hi.tT t (by omega)
+  · intro h; simp only
+    by_cases e : h = s.nH
+    · subst e; simp [holders]
+    · rw [upd_ne _ _ e]; exact hi.hR h
+  · intro h; simp only
+    by_cases e : h = s.nH
+    · subst e; simp
+    · rw [upd_ne _ _ e]; exact hi.hL h
+  · intro h; simp only
+    by_cases e : h = s.nH
+    · subst e; simp
+    · rw [upd_ne _ _ e]; exact hi.hU h
+  · intro h hh hw; simp only at hh hw ⊢
+    by_cases e : h = s.nH
+    · subst e; exact ⟨_, rfl, rfl⟩
+    · rw [upd_ne _ _ e] at hw; rw [all_written h (by omega)] at hw; cases hw
+  · intro c hc; simp only at hc ⊢
+    injection hc with hc; subst hc
+    simp
+  · intro t h hh; simp only at hh ⊢
+    by_cases e : t = s.nT
+    · subst e; simp at hh; subst hh; simp
+    · rw [upd_ne _ _ e] at hh
+      have := hi.tH t h hh
+      rw [upd_ne _ _ (by omega)]; exact ⟨by omega, this.2⟩
+  · intro h hh; simp only at hh ⊢
+    by_cases e : h = s.nH
+    · subst e; simp at hh
+    · rw [upd_ne _ _ e] at hh ⊢
+      have := hi.hO h hh
+      rw [upd_ne _ _ (ne_of_handle _ _ this)]; exact this
+  · intro t h hh; simp only at hh ⊢
+    by_cases e : t = s.nT
+    · subst e; simp at hh; subst hh; simp
+    · rw [upd_ne _ _ e] at hh
+      have := hi.tH t h hh
+      rw [upd_ne _ _ (by omega)]; exact hi.hW t h hh
+  · intro h; simp only
+    by_cases e : h = s.nH
+    · subst e; simp
+    · rw [upd_ne _ _ e]; exact hi.hJ h
+  · intro t hp; simp only at hp ⊢
+    by_cases e : t = s.nT
+    · subst e; exact ⟨s.nH, by simp, by simp⟩
+    · rw [upd_ne _ _ e] at hp ⊢
+      obtain ⟨h, h1, h2⟩ := hi.tC t hp
+      have := hi.tH t h h1
+      exact ⟨h, h1, by rw [upd_ne _ _ (by omega)]; exact h2⟩
+  · intro t h hp hh; simp only at hp hh ⊢
+    by_cases e : t = s.nT
+    · subst e; simp at hp
+    · rw [upd_ne _ _ e] at hp hh; exact hi.tR t h hp hh
+  · intro t m ho hv; simp only at ho hv ⊢
+    have := hi.lT t m ho hv
+    have hlt := hi.lt_of_written this.1
+    rw [upd_ne _ _ (by omega)]; exact this
+  · intro t h hh; simp only at hh ⊢
+    by_cases e : t = s.nT
+    · subst e; simp at hh; subst hh; simp
+    · rw [upd_ne _ _ e] at hh ⊢
+      have := hi.tH t h hh
+      rw [upd_ne _ _ (by omega)]; exact hi.jC t h hh
+  · intro h; simp only
+    by_cases e : h = s.nH
+    · subst e; simp; intro hm; have := (hi.fL s.nH).mp hm; rw [hnewH] at this; cases this
+    · rw [upd_ne _ _ e]; exact hi.fL h
+
+theorem HInv.createEnd_inv {s s' : State} {a : Nat} (hi : HInv s) (hs : createEnd s a = .ok s') : HInv s' := by
+  obtain ⟨c, hspin, _, rfl⟩ := createEnd_ok hs
+  obtain ⟨hlt, hw, hlink, hph⟩ := hi.sC c hspin
+  have hu := hi.hU c.h hw
+  have only : ∀ h, h < s.nH → h ≠ c.h → (s.hdl h).written = true := by
+    intro h hh hne
+    cases hw' : (s.hdl h).written with
+    | true => rfl
+    | false =>
+      obtain ⟨c', hc', e⟩ := hi.hS h hh hw'
+      rw [hspin] at hc'; injection hc' with hc'; subst hc'; exact absurd e.symm hne
+  refine ⟨hi.k0, ?_, hi.tT, ?_, ?_, ?_, ?_, ?_, ?_, ?_, ?_, ?_, ?_, hi.tR, ?_, ?_, ?_, hi.fN⟩
+  · intro h hh; simp only at hh ⊢; rw [upd_ne _ _ (by omega)]; exact hi.hB h hh
+  · intro h; simp only
+    by_cases e : h = c.h
+    · subst e; simp [holders, createInitRefCount]
+    · rw [upd_ne _ _ e]; exact hi.hR h
+  · intro h; simp only
+    by_cases e : h = c.h
+    · subst e; simp [holders]
+    · rw [upd_ne _ _ e]; exact hi.hL h
+  · intro h; simp only
+    by_cases e : h = c.h
+    · subst e; simp
+    · rw [upd_ne _ _ e]; exact hi.hU h
+  · intro h hh hw'; simp only at hh hw' ⊢
+    by_cases e : h = c.h
+    · subst e; simp at hw'
+    · rw [upd_ne _ _ e] at hw'; rw [only h hh e] at hw'; cases hw'
+  · intro c' hc'; simp only at hc'; cases hc'
+  · intro t h hh; simp only at hh ⊢
+    by_cases e : h = c.h
+    · subst e; simp; exact hi.tH t _ hh
+    · rw [upd_ne _ _ e]; exact hi.tH t h hh
+  · intro h hh; simp only at hh ⊢
+    by_cases e : h = c.h
+    · subst e; simp; exact hlink
+    · rw [upd_ne _ _ e] at hh ⊢; exact hi.hO h hh
+  · intro t h hh; simp only at hh ⊢
+    by_cases e : h = c.h
+    · subst e; simp
+    · rw [upd_ne _ _ e]; exact hi.hW t h hh
+  · intro h; simp only
+    by_cases e : h = c.h
+    · subst e; simp
+    · rw [upd_ne _ _ e]; exact hi.hJ h
+  · intro t hp; simp only at hp ⊢
+    obtain ⟨h, h1, h2⟩ := hi.tC t hp
+    refine ⟨h, h1, ?_⟩
+    by_cases e : h = c.h
+    · subst e; simp
+    · rw [upd_ne _ _ e]; exact h2
+  · intro t m ho hv; simp only at ho hv ⊢
+    have := hi.lT t m ho hv
+    have e : s.tls t m - 1 ≠ c.h := by intro e; rw [e, hw] at this; cases this.1
+    rw [upd_ne _ _ e]; exact this
+  · intro t h hh; simp only at hh ⊢
+    by_cases e : h = c.h
+    · subst e; simp; exact hi.jC t _ hh
+    · rw [upd_ne _ _ e]; exact hi.jC t h hh
+  · intro h; simp only
+    by_cases e : h = c.h
+    · subst e; simp; exact hi.fL _
+    · rw [upd_ne _ _ e]; exact hi.fL h
+
+/-- `p_uthread_exit` of a library thread: `ret_code = code`, the function is left -/
+theorem HInv.exitWrite {s : State} (hi : HInv s) {t h : Nat} {code : Int} (hp : (s.thr t).phase = .running)
+    (hh : (s.thr t).handle = some h) :
+    HInv { s with
+      hdl := upd s.hdl h { s.hdl h with retCode := code }
+      thr := upd s.thr t { s.thr t with phase := .finished, exitArg := some code } } := by
+  have hw := hi.written_of_started hh (by rw [hp]; simp)
+  have hth := (hi.tH t h hh).2
+  have eh : ∀ t', (upd s.thr t { s.thr t with phase := .finished, exitArg := some code } t').handle = (s.thr t').handle := by
+    intro t'; by_cases e : t' = t
+    · subst e; simp
+    · rw [upd_ne _ _ e]
+  -- everything but `retCode` of handle `h` is unchanged
+  have eH : ∀ h', (upd s.hdl h { s.hdl h with retCode := code } h').refCount = (s.hdl h').refCount ∧
+      (upd s.hdl h { s.hdl h with retCode := code } h').freed = (s.hdl h').freed ∧
+      (upd s.hdl h { s.hdl h with retCode := code } h').written = (s.hdl h').written ∧
+      (upd s.hdl h { s.hdl h with retCode := code } h').userRefs = (s.hdl h').userRefs ∧
+      (upd s.hdl h { s.hdl h with retCode := code } h').threadRef = (s.hdl h').threadRef ∧
+      (upd s.hdl h { s.hdl h with retCode := code } h').thread = (s.hdl h').thread ∧
+      (upd s.hdl h { s.hdl h with retCode := code } h').ours = (s.hdl h').ours ∧
+      (upd s.hdl h { s.hdl h with retCode := code } h').joinable = (s.hdl h').joinable := by
+    intro h'; by_cases e : h' = h
+    · subst e; simp
+    · rw [upd_ne _ _ e]; simp
+  refine ⟨hi.k0, ?_, hi.tT, ?_, ?_, ?_, ?_, ?_, ?_, ?_, ?_, ?_, ?_, ?_, ?_, ?_, ?_, hi.fN⟩
+  · intro h' hh'; simp only at hh' ⊢
+    have := hi.lt_of_written hw
+    rw [upd_ne _ _ (by omega)]; exact hi.hB h' hh'
+  · intro h'; simp only [holders]; rw [(eH h').1, (eH h').2.1, (eH h').2.2.2.1, (eH h').2.2.2.2.1]; exact hi.hR h'
+  · intro h'; simp only [holders]; rw [(eH h').2.1, (eH h').2.2.1, (eH h').2.2.2.1, (eH h').2.2.2.2.1]; exact hi.hL h'
+  · intro h' hw'; simp only at hw' ⊢
+    rw [(eH h').2.2.1] at hw'
+    have e : h' ≠ h := by intro e; subst e; rw [hw] at hw'; cases hw'
+    rw [upd_ne _ _ e]; exact hi.hU h' hw'
+  · intro h' hlt hw'; simp only at hlt hw' ⊢; rw [(eH h').2.2.1] at hw'; exact hi.hS h' hlt hw'
+  · intro c hc; simp only at hc ⊢
+    have := hi.sC c hc
+    rw [(eH c.h).2.2.1, (eH c.h).2.2.2.2.2.1]
+    have e : (s.hdl c.h).thread ≠ t := by intro e; rw [e, hp] at this; cases this.2.2.2
+    rw [upd_ne _ _ e]; exact this
+  · intro t' h' hh'; simp only at hh' ⊢; rw [eh] at hh'; rw [(eH h').2.2.2.2.2.1]; exact hi.tH t' h' hh'
+  · intro h' ho; simp only at ho ⊢; rw [(eH h').2.2.2.2.2.2.1] at ho; rw [(eH h').2.2.2.2.2.1, eh]; exact hi.hO h' ho
+  · intro t' h' hh'; simp only at hh' ⊢; rw [eh] at hh'; rw [(eH h').2.2.1, (eH h').2.2.2.2.2.2.1]; exact hi.hW t' h' hh'
+  · intro h'; simp only; rw [(eH h').2.2.1, (eH h').2.2.2.2.2.2.1, (eH h').2.2.2.2.2.2.2]; exact hi.hJ h'
+  · intro t' hp'; simp only at hp' ⊢
+    have e : t' ≠ t := by intro e; subst e; simp at hp'
+    rw [upd_ne _ _ e] at hp' ⊢
+    obtain ⟨h', h1, h2⟩ := hi.tC t' hp'
+    exact ⟨h', h1, by rw [(eH h').2.2.1, (eH h').2.2.2.2.1]; exact h2⟩
+  · intro t' h' hp' hh'; simp only at hp' hh' ⊢
+    have e : t' ≠ t := by intro e; subst e; simp at hp'
+    rw [upd_ne _ _ e] at hp' hh'; exact hi.tR t' h' hp' hh'
+  · intro t' m ho hv; simp only at ho hv ⊢
+    rw [(eH _).2.2.1, (eH _).2.2.2.2.1, (eH _).2.2.2.2.2.1]; exact hi.lT t' m ho hv
+  · intro t' h' hh'; simp only at hh' ⊢
+    by_cases e : t' = t
+    · subst e; simp at hh' ⊢
+      rw [hh] at hh'; injection hh' with hh'; subst hh'; simp
+    · rw [upd_ne _ _ e] at hh' ⊢
+      have e2 : h' ≠ h := by intro e2; subst e2; exact e ((hi.tH t' h' hh').2.symm.trans hth)
+      rw [upd_ne _ _ e2]; exact hi.jC t' h' hh'
+  · intro h'; simp only; rw [(eH h').2.1]; exact hi.fL h'
+
+theorem HInv.start_inv {s s' : State} {t : Nat} (hi : HInv s) (hk : KInv s) (hs : start s t = .ok s') : HInv s' := by
+  obtain ⟨h, n, hph, _, hh, _, hpub, hspin, _, rfl⟩ := start_ok hs
+  have hlt := (hi.tH t h hh).1
+  have hth := (hi.tH t h hh).2
+  have hw : (s.hdl h).written = true := by
+    cases hw : (s.hdl h).written with
+    | true => rfl
+    | false => obtain ⟨c, hc, _⟩ := hi.hS h hlt hw; rw [hspin] at hc; cases hc
+  have htr : (s.hdl h).threadRef = true := by
+    obtain ⟨h', h1, h2⟩ := hi.tC t hph
+    rw [hh] at h1; injection h1 with h1; subst h1; exact h2 hw
+  have htlt : t < s.nT := hk.thr_lt (by rw [hph]; simp)
+  have eh : ∀ t', (upd s.thr t { s.thr t with phase := .running } t').handle = (s.thr t').handle := by
+    intro t'; by_cases e : t' = t
+    · subst e; simp
+    · rw [upd_ne _ _ e]
+  refine ⟨hi.k0, hi.hB, ?_, hi.hR, hi.hL, hi.hU, hi.hS, ?_, ?_, ?_, ?_, hi.hJ, ?_, ?_, ?_, ?_, hi.fL, hi.fN⟩
+  · intro t' ht' m; simp only at ht' ⊢
+    rw [upd2_ne _ _ (by intro e; omega)]; exact hi.tT t' ht' m
+  · intro c hc; simp only at hc; rw [hspin] at hc; cases hc
+  · intro t' h' hh'; simp only at hh' ⊢; rw [eh] at hh'; exact hi.tH t' h' hh'
+  · intro h' hh'; simp only at hh' ⊢; rw [eh]; exact hi.hO h' hh'
+  · intro t' h' hh'; simp only at hh' ⊢; rw [eh] at hh'; exact hi.hW t' h' hh'
+  · intro t' hp; simp only at hp ⊢
+    have e : t' ≠ t := by intro e; subst e; simp at hp
+    rw [upd_ne _ _ e] at hp ⊢; exact hi.tC t' hp
+  · intro t' h' hp hh'; simp only at hp hh' ⊢
+    by_cases e : t' = t
+    · subst e; simp at hh'; rw [hh] at hh'; injection hh' with hh'; subst hh'
+      exact ⟨n, hpub, by simp⟩
+    · rw [upd_ne _ _ e] at hp hh'
+      obtain ⟨m, h1, h2⟩ := hi.tR t' h' hp hh'
+      exact ⟨m, h1, by rw [upd2_ne _ _ (by simp [e])]; exact h2⟩
+  · intro t' m ho hv; simp only at ho hv ⊢
+    by_cases e : t' = t ∧ m = n
+    · obtain ⟨rfl, rfl⟩ := e; simp; exact ⟨hw, htr, hth⟩
+    · rw [upd2_ne _ _ e] at hv ⊢; exact hi.lT t' m ho hv
+  · intro t' h' hh'; simp only at hh' ⊢
+    by_cases e : t' = t
+    · subst e; simp at hh' ⊢
+      have := (hi.jC t' h' hh').1 (.inl hph)
+      exact this
+    · rw [upd_ne _ _ e] at hh' ⊢; exact hi.jC t' h' hh'
+
+/-- `p_uthread_current` by a running thread -/
+theorem HInv.currentCore_inv {s : State} (hi : HInv s) (hk : KInv s) {t n : Nat} (hc : canAct s t)
+    (hpub : (s.key 0).published = some n) : HInv (currentCore s t n).1 := by
+  unfold PV.UThread.currentCore
+  split
+  · exact hi
+  · rename_i hz
+    simp only [Decidable.not_not] at hz
+    have hnewH := hi.hB s.nH (Nat.le_refl _)
+    have htlt : t < s.nT := hk.thr_lt (by rw [hc.1]; simp)
+    have hforeign : (s.thr t).handle = none := by
+      cases hh : (s.thr t).handle with
+      | none => rfl
+      | some h =>
+        obtain ⟨m, h1, h2⟩ := hi.tR t h hc.1 hh
+        rw [hpub] at h1; injection h1 with h1; subst h1; rw [hz] at h2; omega
+    refine ⟨hi.k0, ?_, ?_, ?_, ?_, ?_, ?_, ?_, ?_, ?_, ?_, ?_, ?_, ?_, ?_, ?_, ?_, hi.fN⟩
+    · intro h hh; simp only at hh ⊢; rw [upd_ne _ _ (by omega)]; exact hi.hB h (by omega)
+    · intro t' ht' m; simp only at ht' ⊢
+      rw [upd2_ne _ _ (by intro e; omega)]; exact hi.tT t' ht' m
+    · intro h; simp only
+      by_cases e : h = s.nH
+      · subst e; simp [holders, currentInitRefCount]
+      · rw [upd_ne _ _ e]; exact hi.hR h
+    · intro h; simp only
+      by_cases e : h = s.nH
+      · subst e; simp [holders]
+      · rw [upd_ne _ _ e]; exact hi.hL h
+    · intro h; simp only
+      by_cases e : h = s.nH
+      · subst e; simp
+      · rw [upd_ne _ _ e]; exact hi.hU h
+    · intro h hh hw; simp only at hh hw ⊢
+      by_cases e : h = s.nH
+      · subst e; simp at hw
+      · rw [upd_ne _ _ e] at hw; exact hi.hS h (by omega) hw
+    · intro c hc'; simp only at hc' ⊢
+      have := hi.sC c hc'
+      rw [upd_ne _ _ (by omega)]; exact ⟨by omega, this.2⟩
+    · intro t' h hh; simp only at hh ⊢
+      have := hi.tH t' h hh
+      rw [upd_ne _ _ (by omega)]; exact ⟨by omega, this.2⟩
+    · intro h hh; simp only at hh ⊢
+      by_cases e : h = s.nH
+      · subst e; simp at hh
+      · rw [upd_ne _ _ e] at hh ⊢; exact hi.hO h hh
+    · intro t' h hh; simp only at hh ⊢
+      have := hi.tH t' h hh
+      rw [upd_ne _ _ (by omega)]; exact hi.hW t' h hh
+    · intro h; simp only
+      by_cases e : h = s.nH
+      · subst e; simp
+      · rw [upd_ne _ _ e]; exact hi.hJ h
+    · intro t' hp; simp only at hp ⊢
+      obtain ⟨h, h1, h2⟩ := hi.tC t' hp
+      have := hi.tH t' h h1
+      exact ⟨h, h1, by rw [upd_ne _ _ (by omega)]; exact h2⟩
+    · intro t' h hp hh; simp only at hp hh ⊢
+      have e : t' ≠ t := by intro e; subst e; rw [hforeign] at hh; cases hh
+      obtain ⟨m, h1, h2⟩ := hi.tR t' h hp hh
+      exact ⟨m, h1, by rw [upd2_ne _ _ (by simp [e])]; exact h2⟩
+    · intro t' m ho hv; simp only at ho hv ⊢
+      by_cases e : t' = t ∧ m = n
+      · obtain ⟨rfl, rfl⟩ := e; simp
+      · rw [upd2_ne _ _ e] at hv ⊢
+        have := hi.lT t' m ho hv
+        have hlt := hi.lt_of_written this.1
+        rw [upd_ne _ _ (by omega)]; exact this
+    · intro t' h hh; simp only at hh ⊢
+      have := hi.tH t' h hh
+      rw [upd_ne _ _ (by omega)]; exact hi.jC t' h hh
+    · intro h; simp only
+      by_cases e : h = s.nH
+      · subst e; simp; intro hm; have := (hi.fL s.nH).mp hm; rw [hnewH] at this; cases this
+      · rw [upd_ne _ _ e]; exact hi.fL h
+
+/-- what `p_uthread_current` returns: the calling thread's own handle, alive in the ghost sense -/
+theorem currentCore_handle {s : State} (hi : HInv s) (hk : KInv s) {t n : Nat} (hpub : (s.key 0).published = some n) :
+    ((currentCore s t n).1.hdl (currentCore s t n).2).written = true ∧
+    ((currentCore s t n).1.hdl (currentCore s t n).2).threadRef = true ∧
+    ((currentCore s t n).1.hdl (currentCore s t n).2).thread = t := by
+  unfold currentCore
+  split
+  · rename_i hv
+    exact hi.lT t n (hk.kP 0 n hpub).2.1 hv
+  · simp
+
+theorem HInv.current_inv {s s' : State} {t : Nat} (hi : HInv s) (hk : KInv s) (hs : current s t = .ok s') : HInv s' := by
+  obtain ⟨n, hc, _, hpub, rfl⟩ := current_ok hs
+  exact (hi.currentCore_inv hk hc hpub).logs _ _ _ _
+
+
+theorem HInv.exit_inv {s s' : State} {t : Nat} {code : Int} (hi : HInv s) (hk : KInv s) (hs : exit s t code = .ok s') : HInv s' := by
+  obtain ⟨n, hc, _, hpub, hf, hcase⟩ := exit_ok hs
+  have h1 := hi.currentCore_inv hk hc hpub
+  obtain ⟨hw, htr, hth⟩ := currentCore_handle hi hk (t := t) hpub
+  rcases hcase with ⟨_, rfl⟩ | ⟨ho, rfl⟩
+  · exact h1
+  · have hh := h1.hO _ ho
+    rw [hth] at hh
+    exact h1.exitWrite (by rw [currentCore_thr]; exact hc.1) hh
+
+theorem HInv.step {s s' : State} {e : Ev} (hi : HInv s) (hk : KInv s) (hs : step s e = .ok s') : HInv s' := by
+  cases e with
+  | spawn => exact hi.spawn_inv hk hs
+  | createBegin a j n => exact hi.createBegin_inv hk hs
+  | createEnd a => exact hi.createEnd_inv hs
+  | start t => exact hi.start_inv hk hs
+  | exit t c => exact hi.exit_inv hk hs
+  | ret t => exact hi.ret_inv hs
+  | threadEnd t => exact hi.threadEnd_inv hk hs
+  | ref a h => exact hi.ref_inv hs
+  | unref a h => obtain ⟨_, _, hw, hu⟩ := unref_ok hs; exact hi.unrefCore_user hw hu
+  | join a h => exact hi.join_inv hs
+  | current t => exact hi.current_inv hk hs
+  | localNew a n => exact hi.localNew_inv hs
+  | localFree a k => exact hi.localFree_inv hs
+  | keyCreate t k => exact hi.keyCreate_inv hk hs
+  | keyCas t k => exact hi.keyCas_inv hs
+  | setLocal t k v =>
+    obtain ⟨n, hc, hk0, _, _, hp, rfl⟩ := setLocal_ok hs
+    exact (hi.userTls hk (v := v) hc hk0 hp).logs _ _ _ _
+  | replaceLocal t k v =>
+    obtain ⟨n, hc, hk0, _, _, hp, rfl⟩ := replaceLocal_ok hs
+    exact (hi.userTls hk (v := v) hc hk0 hp).logs _ _ _ _
+  | getLocal t k =>
+    obtain ⟨n, _, _, _, _, _, rfl⟩ := getLocal_ok hs
+    exact hi.logs _ _ _ _
+
+/-- both invariants hold in every reachable state -/
+theorem Reach.inv {s : State} (h : Reach s) : KInv s ∧ HInv s := by
+  induction h with
+  | init => exact ⟨KInv.init, HInv.init⟩
+  | step e _ hs ih => exact ⟨ih.1.step hs, ih.2.step ih.1 hs⟩
